@@ -373,7 +373,9 @@ namespace BitSerializer::Convert::Detail
 			if (utc.Year >= 10000) {
 				*pos++ = '+';
 			}
-			const size_t outSize = snprintf(pos, endPos - pos, "%04" PRId64 "-%02d-%02dT%02d:%02d:%02d", utc.Year, utc.Month, utc.Day, utc.Hour, utc.Min, utc.Sec);
+			// At least four digits of year are required, the minus sign is not counted
+			const int yearWidth = utc.Year < 0 ? 5 : 4;
+			const size_t outSize = snprintf(pos, endPos - pos, "%0*" PRId64 "-%02d-%02dT%02d:%02d:%02d", yearWidth, utc.Year, utc.Month, utc.Day, utc.Hour, utc.Min, utc.Sec);
 			if (outSize > 0)
 			{
 				pos += outSize;
